@@ -197,6 +197,15 @@ pub struct Card {
     pub stop_gap: bool,
     /// length of the busy period after the stop token (None: like any other busy period)
     pub stop_busy: Option<u64>,
+    /// a programming time after an accepted data block that is long but inside the driver's write
+    /// timeout (for `prog_budget` blocks of this card's life, one accepted block in three)
+    pub prog_busy: Option<u64>,
+    pub prog_budget: u32,
+    /// with CRC checking off the two trailer bytes of a block read are not looked at by the host; on
+    /// these cards every other block ends in 0xFF xx, as one block in 256 does anyway
+    pub ff_trailer: bool,
+    /// bytes of a response + data block still to be clocked out
+    pub data_pending: usize,
     /// how often each command (ACMDs | 0x80) was seen in the current driver call
     cmd_seen: std::collections::HashMap<u8, u32>,
     /// number of CMD0 frames the card sleeps through (no response at all) after every power-on
@@ -267,6 +276,10 @@ impl Card {
             honour_pre_erase: false,
             stop_gap: false,
             stop_busy: None,
+            prog_busy: None,
+            prog_budget: 0,
+            ff_trailer: false,
+            data_pending: 0,
             cmd_seen: Default::default(),
             sleepy: 0,
             sleepy_left: 0,
@@ -308,6 +321,9 @@ impl Card {
     pub fn begin_call(&mut self) {
         self.call_id += 1;
         self.bytes_in_call = 0;
+        if self.corrupted_this_call {
+            self.data_pending = 0;
+        }
         self.corrupted_this_call = false;
         self.miso_call.clear();
         self.cmd_seen.clear();
@@ -356,7 +372,10 @@ impl Card {
                 self.corrupted_this_call = true;
             }
         }
-        let crc = if self.crc_on { crc16_ref(data) } else { crc16_ref(data) ^ 0x5AA5 };
+        let mut crc = if self.crc_on { crc16_ref(data) } else { crc16_ref(data) ^ 0x5AA5 };
+        if !self.crc_on && self.ff_trailer && self.data_blocks_sent % 2 == 0 {
+            crc |= 0xFF00;
+        }
         let mut frame: Vec<u8> = data.to_vec();
         frame.extend_from_slice(&crc.to_be_bytes());
         let flips: Vec<u32> = self.inject.flip_bits.iter().filter(|(k, _)| *k == self.data_blocks_sent).flat_map(|(_, b)| b.clone()).collect();
@@ -372,6 +391,7 @@ impl Card {
             self.tx.push_back((b, false));
         }
         self.data_blocks_sent += 1;
+        self.data_pending = self.tx.len();
     }
 
     /// check the identification order prescribed by the specification for everything since CMD0
@@ -453,6 +473,7 @@ impl Card {
             // keep busy bytes? a real card would still be busy; we drop the queue to stay simple
         }
         self.tx.clear();
+        self.data_pending = 0;
         if !crc_ok && (self.crc_on || cmd == 0 || cmd == 8) {
             self.queue_response(&[0x08 | self.r1()]);
             return;
@@ -696,7 +717,15 @@ impl Card {
                 self.write_block = self.write_block.wrapping_add(1);
             }
         }
-        self.queue_busy();
+        match self.prog_busy {
+            Some(n) if self.prog_budget > 0 && self.rng.chance(1, 3) => {
+                self.prog_budget -= 1;
+                for _ in 0..n {
+                    self.tx.push_back((0x00, true));
+                }
+            }
+            _ => self.queue_busy(),
+        }
         self.rx = if multi { Rx::Token { multi: true } } else { Rx::Idle };
     }
 
@@ -731,6 +760,8 @@ impl Card {
             Some((b, busy)) => (b, busy),
             None => (0xFF, false),
         };
+        let in_data = self.data_pending > 0;
+        self.data_pending = self.data_pending.saturating_sub(1);
         // keep a multi-block read flowing
         if self.tx.is_empty() {
             if let Some(b) = self.read_stream {
@@ -753,6 +784,10 @@ impl Card {
                 if mosi == 0xFF {
                     Rx::Idle
                 } else if mosi & 0xC0 == 0x40 {
+                    // (stop-transmission is the one command a card takes while it is sending)
+                    if in_data && mosi != 0x4C && !self.corrupted_this_call {
+                        self.violate("C14.cmd-while-sending", format!("command byte {:#04x} sent while the card is still clocking out a data block (the trailer bytes included)", mosi));
+                    }
                     Rx::Frame(vec![mosi])
                 } else {
                     self.violate("C14.stray-byte", format!("byte {:#04x} outside any frame or data phase", mosi));
@@ -852,6 +887,7 @@ impl Card {
         self.inject = Inject::default();
         self.rx = Rx::Idle;
         self.tx.clear();
+        self.data_pending = 0;
         self.read_stream = None;
         self.app_next = false;
         self.powered_cmd0 = false;
